@@ -23,8 +23,11 @@ stone/backends/python_types.py `_generate_struct_attributes_defaults`, `_generat
 * `envOfC`         : the class tables python_types generates for a compile-time API description.
 
 Where Python raises `InvalidSpec` the model answers `invalid`; any other exception class escaping the
-compiler is `crash <class>` (these are the known frontend crash sites of DESIGN.md Appendix B; the model
-reproduces what /repo does today).
+compiler is `crash <class>`. Since the frontend repairs (notes/c03_fix_notes.md) no entry point of this model
+(`fieldDefault`, `addStructExample`, `unionExample`) can answer `crash` on a type the compiler can build
+(`tyKnown`): `Props/C10.lean` proves it (`checkDefault_no_crash`, `example_check_no_crash`). What is left of
+`crash` are `List/Map/Struct.check` (`raise NotImplementedError`, no longer reachable: a default on such a
+field is refused before) and the answers for class names that are in no table (no real input has them).
 
 External calls of the compile-time side are the fields of `CExt`; the numeric ones (`float(int)`,
 comparisons, NaN/Inf tests) are shared with the runtime's `Ext`.
@@ -60,8 +63,6 @@ def ccrash {α} (exc : String) : CR α := .error (.crash exc)
 structure CExt where
   /-- `re.compile(p).match(s) is not None` — an UNANCHORED-at-the-end (prefix) match -/
   prefixMatch : String → String → Bool
-  /-- `float(s)` for a string literal; `none` = ValueError -/
-  fltOfStr : String → Option FBits
   /-- `datetime.datetime.strptime(s, fmt)` succeeds (arguments: format, text) -/
   strptimeOk : String → String → Bool
 
@@ -141,9 +142,7 @@ def checkFloatVal (E : Ext) (cls : String) (mn mx : Option FBits) (x : FBits) : 
     if (match tlo with | some m => E.fltLt x m | none => false) then invalid "less than the type's minimum"
     else if (match thi with | some m => E.fltLt m x | none => false) then invalid "greater than the type's maximum"
     else if (match mn with | some m => E.fltLt x m | none => false) then invalid "less than min_value"
-    else if (match mx with | some m => E.fltLt m x | none => false) then
-      -- `'%f is greater than %f' % (val, self.min_value)`: formatting None raises TypeError (not caught)
-      (if mn.isNone then ccrash "TypeError" else invalid "greater than max_value")
+    else if (match mx with | some m => E.fltLt m x | none => false) then invalid "greater than max_value"
     else .ok ()
 
 /-- `data_type.check(val)` for a literal. `us` = the unions of the API (for `Union.check`). -/
@@ -190,7 +189,7 @@ def check (E : Ext) (C : CExt) (us : List CUnion) : IrTy → Lit → CR Unit
       | some u => match u.allTags.find? (·.name == tag) with
         | some t => if isVoidLit t.ty then .ok () else invalid "invalid reference to non-void option"
         | none => invalid "invalid reference to unknown tag"
-    | _ => ccrash "AssertionError"
+    | _ => invalid "not a valid union tag"
   | .nullable t, l => match l with
     | .null => .ok ()
     | _ => check E C us t l
@@ -201,35 +200,46 @@ def unwrapAliases : IrTy → IrTy
   | .alias _ _ t => unwrapAliases t
   | t => t
 
-/-- `_create_struct_field` (refusals that involve the default) followed by the body of
-`_populate_field_defaults` for one field `f T = lit`: the stored default. -/
+/-- `unwrap(data_type)[0]`: every alias and every Nullable removed -/
+def unwrapAll : IrTy → IrTy
+  | .alias _ _ t => unwrapAll t
+  | .nullable t => unwrapAll t
+  | t => t
+
+/-- `is_primitive_type(t) or is_union_type(t)` (Void is a Primitive) -/
+def defaultable : IrTy → Bool
+  | .bool | .int .. | .float .. | .str .. | .bytes | .ts _ | .void | .union _ => true
+  | _ => false
+
+/-- `if field.data_type.name in ('Float32', 'Float64') and isinstance(default_value, (int, float)):
+default_value = float(default_value)` — literally these two classes (an alias of a float type keeps the
+literal as written), numbers only (bool is an int); `OverflowError` is caught and reported as InvalidSpec. -/
+def coerceDefault (E : Ext) (t : IrTy) (lit : Lit) : CR Lit :=
+  match t, lit with
+  | .float _ _ _, .int n => match E.fltOfInt n with
+    | some x => .ok (.flt x)
+    | none => invalid "int too large to convert to float"
+  | .float _ _ _, .bool b => match E.fltOfInt (if b then 1 else 0) with
+    | some x => .ok (.flt x)
+    | none => invalid "int too large to convert to float"
+  | _, l => .ok l
+
+/-- the body of `_populate_field_defaults` for one field `f T = lit`: the stored default -/
+def populateDefault (E : Ext) (C : CExt) (us : List CUnion) (t : IrTy) (lit : Lit) : CR Lit :=
+  -- an alias of a nullable type is nullable too (refused like the literal `T?`)
+  if (unwrapAliases t).isNullableLit then invalid "Field cannot be a nullable type and have a default specified"
+  -- only a primitive or a union (behind aliases) can carry a default: List / Map / struct are refused here
+  else if !defaultable (unwrapAll t) then invalid "Field cannot have a default: only fields of a primitive or union type can"
+  else match coerceDefault E t lit with
+    | .error e => .error e
+    | .ok d => (check E C us t d).map fun _ => d      -- `ValueError` from `check` is caught
+
+/-- `_create_struct_field` (refusals that involve the default) followed by `_populate_field_defaults`. -/
 def fieldDefault (E : Ext) (C : CExt) (us : List CUnion) (t : IrTy) (lit : Lit) : CR Lit :=
   match t with
   | .void => invalid "Struct field cannot have a Void type"
   | .nullable _ => invalid "Field cannot be a nullable type and have a default specified"
-  | .float _ _ _ =>
-    -- `if field.data_type.name in ('Float32', 'Float64'): default_value = float(default_value)`
-    -- (literally these two classes: an alias of a float type keeps the literal as written)
-    let coerced : CR FBits := match lit with
-      | .flt x => .ok x
-      | .int n => match E.fltOfInt n with
-        | some x => .ok x
-        | none => ccrash "OverflowError"
-      | .bool b => match E.fltOfInt (if b then 1 else 0) with
-        | some x => .ok x
-        | none => ccrash "OverflowError"
-      | .str s => match C.fltOfStr s with
-        | some x => .ok x
-        | none => invalid "could not convert string to float"       -- ValueError is caught
-      | .null => ccrash "TypeError"
-      | .tagref _ => ccrash "TypeError"
-    match coerced with
-    | .error e => .error e
-    | .ok x => (check E C us t (.flt x)).map fun _ => .flt x
-  | _ =>
-    -- `_populate_field_defaults`: an alias of a nullable type is nullable too (refused like the literal `T?`)
-    if (unwrapAliases t).isNullableLit then invalid "Field cannot be a nullable type and have a default specified"
-    else (check E C us t lit).map fun _ => lit
+  | _ => populateDefault E C us t lit
 
 /-- The compile-time check alone (the task's `checkDefault`). -/
 def checkDefault (E : Ext) (C : CExt) (us : List CUnion) (t : IrTy) (lit : Lit) : CR Unit :=
@@ -315,7 +325,7 @@ def checkExample (E : Ext) (C : CExt) (us : List CUnion) : IrTy → ExVal → CR
         match checkExample E C us k (.lit (.str p.1)) with
         | .error e => .error e
         | .ok _ => checkExample E C us vt p.2) kvs
-    | _ => ccrash "ValueError"                     -- raised, not wrapped (Appendix B)
+    | _ => invalid "not a valid map"
   | .struct .., v => match v with
     | .ref _ => .ok ()
     | _ => invalid "example must reference label"
@@ -419,27 +429,21 @@ def unionExampleDoc (u : CUnion) (ex : List (String × ExVal)) : Option JVal :=
   match ex with
   | [(tag, v)] => match u.allTags.find? (·.name == tag) with
     | none => none
-    | some t => match unwrapNullable t.ty with
-      | .struct _ false => none                         -- flattened struct member: always a reference
-      | _ => match jsonOfEx v with
-        | none => none
-        | some .null => some (.obj [(".tag", .str tag)])
-        | some j => some (.obj [(".tag", .str tag), (tag, j)])
+    | some t => match jsonOfEx v with
+      | none => none                                            -- a reference (outside this model)
+      | some .null => some (.obj [(".tag", .str tag)])          -- `inner_ex_val is None`: only the tag
+      | some j => match unwrapNullable t.ty with
+        | .struct _ false => none      -- `ex_val.update(inner_ex_val)`: the value of a reference (a literal is refused by the check)
+        | _ => some (.obj [(".tag", .str tag), (tag, j)])
   | _ => none
 
 /-- `Union._add_example` followed by `Union._compute_example` for one raw example: the computed document
-(`none` when it follows references). A `null` written for a nullable member that is a plain struct passes the
-check and then crashes the computation (`ex_val.update(None)`: TypeError, a known crash site). -/
+(`none` when it follows references). A `null` written for a nullable member — also one that is a plain
+struct — gives the tag alone. -/
 def unionExample (E : Ext) (C : CExt) (us : List CUnion) (u : CUnion) (ex : List (String × ExVal)) : CR (Option JVal) :=
   match addUnionExample E C us u ex with
   | .error e => .error e
-  | .ok _ => match ex with
-    | [(tag, v)] => match u.allTags.find? (·.name == tag) with
-      | some t => match unwrapNullable t.ty with
-        | .struct _ false => if isNullEx v then ccrash "TypeError" else .ok (unionExampleDoc u ex)
-        | _ => .ok (unionExampleDoc u ex)
-      | none => .ok none
-    | _ => .ok none
+  | .ok _ => .ok (unionExampleDoc u ex)
 
 /-! ## the class tables of the generated module -/
 
@@ -476,6 +480,24 @@ def envOfC (api : CApi) : Option Env := do
   pure { structs, unions }
 
 /-! ## specification-level: what the property demands of a default -/
+
+/-- the class names a type mentions are names the compiler knows: the four integer and two float classes of the
+translator's tables, unions of the API (every type the real compiler builds; evaluated by the driver on every
+input). The model's `crash` answers for unknown names cannot occur on such a type. -/
+def tyKnown (us : List CUnion) : IrTy → Bool
+  | .int cls _ _ => (irIntBounds cls).isSome
+  | .float cls _ _ => (irFloatBounds cls).isSome
+  | .union c => (us.find? (·.cls == c)).isSome
+  | .list t _ _ => tyKnown us t
+  | .map k v => tyKnown us k && tyKnown us v
+  | .nullable t => tyKnown us t
+  | .alias _ _ t => tyKnown us t
+  | _ => true
+
+/-- `tyKnown` of every field and tag type of the API -/
+def apiKnown (api : CApi) : Bool :=
+  api.structs.all (fun s => s.chain.all fun l => l.2.all fun f => tyKnown api.unions f.ty) &&
+  api.unions.all (fun u => u.chain.all fun l => l.2.all fun t => tyKnown api.unions t.ty)
 
 /-- the default is accepted by the field's validator and comes back as the value the documented
 normalisation gives (identical, except a number in a float position which is returned as a float) -/
